@@ -46,6 +46,12 @@ def field_attr(f):
     if f.custom:
         parts.append('serialize_with = "crate::generated::be_u32::ser"')
         parts.append('deserialize_with = "crate::generated::be_u32::de"')
+    hb = sum(ord(c) for c in (str(f.name) + f.ty)) % 3
+    if f.skip and not f.custom and hb == 1:
+        # explicit (empty) bounds next to `skip`: the usual way to switch the automatic `Default` bound off
+        parts.append('bound(serialize = "", deserialize = "")')
+    elif f.skip and not f.custom and hb == 2:
+        parts.append('bound(serialize = "")')
     own = ("#[borsh(%s)] " % ", ".join(parts)) if parts else ""
     # attributes of other tools around the borsh one (doc comments, lints): the derives must find
     # `#[borsh(..)]` wherever it stands among them.  Deterministic in the field's name and type.
